@@ -638,6 +638,14 @@ def run(ctx):
         pos_cases.append({'bind': [[['zz'], 1]], 'e': '{%s: 7, %s: 8, r: %s * 10 + %s}.r' % (tu, tl, tu, tl), 'want': 78, 'what': 'context entries differing only in letter case', 'bound': [['zz']]})
         pos_cases.append({'bind': [[['zz'], 1]], 'e': '(function(%s, %s) %s * 10 + %s)(4, 3)' % (tu, tl, tu, tl), 'want': 43, 'what': 'formal parameters differing only in letter case', 'bound': [['zz']]})
         pos_cases.append({'bind': [[['zz'], 1]], 'e': 'for %s in [4], %s in [3] return %s * 10 + %s' % (tu, tl, tu, tl), 'want': [43], 'what': 'iteration variables differing only in letter case', 'bound': [['zz']]})
+    # bound names that are exactly the words with which temporal literals begin (date, time, duration are names, not keywords): as operands, arguments,
+    # list items, in if / for / filter, as iteration variables and typed parameters (seeded change C10_k: a bound name fell through the tweaks meant for
+    # unbound names and came out as the head of a temporal literal)
+    tb = [[['date'], 5], [['time'], 7], [['duration'], 9], [['zz'], 1]]
+    for e, want in (('date + 1', 6), ('time * 2', 14), ('duration - zz', 8), ('[date, time, duration]', [5, 7, 9]), ('if date > zz then time else duration', 7), ('sum([date, time])', 12),
+                    ('for i in [1, 2] return i + date', [6, 7]), ('[1, 2, 3][item = zz + zz + date - date]', 2), ('max(date, time, duration)', 9), ('date in [1..9]', True),
+                    ('{r: time + 1}.r', 8), ('(function(q) q + duration)(1)', 10), ('for date in [3] return date + 1', [4]), ('some time in [1, 2] satisfies time > 1', True)):
+        pos_cases.append({'bind': tb, 'e': e, 'want': want, 'what': 'bound name spelled like the head of a temporal literal', 'bound': [['date'], ['time'], ['duration'], ['zz']]})
     # the keyword `in` as the first part of an iteration variable: no variable name before it, the text is an ordinary name (fixed 83bd59b: was a panic)
     for text in ('for in+x in [1] return 1', 'some in-x in [1] satisfies true', 'every in.a in [1] satisfies true'):
         pos_cases.append({'bind': [[['zz'], 1]], 'e': text, 'want': 'parse', 'what': 'in as first part', 'bound': [['zz']]})
